@@ -1,0 +1,103 @@
+// Verification hooks (cargo feature `verif-hooks`); not part of the protocol.
+
+//! Read-only views of [`PoolImpl`] for out-of-crate model checking harnesses.
+//!
+//! Nothing here changes pool behaviour. The finalization log is a thread-local
+//! recorder: the pool appends every [`FinalizationEvent`] it processes, and the
+//! harness drains it after each call it makes into a pool.
+
+use std::cell::RefCell;
+use std::hash::Hasher;
+
+use super::PoolImpl;
+use super::finality_tracker::FinalizationEvent;
+use crate::{BlockId, Slot};
+
+/// Public mirror of the pool-internal `FinalizationEvent`.
+#[derive(Clone, Debug, Default, PartialEq, Eq)]
+pub struct VerifFinalization {
+    /// Directly finalized block, if any.
+    pub finalized: Option<BlockId>,
+    /// Implicitly finalized ancestors.
+    pub implicitly_finalized: Vec<BlockId>,
+    /// Implicitly skipped slots.
+    pub implicitly_skipped: Vec<Slot>,
+}
+
+/// Slots for which each pool component still retains state.
+#[derive(Clone, Debug, Default, PartialEq, Eq)]
+pub struct VerifRetained {
+    pub slot_states: Vec<Slot>,
+    pub parent_ready: Vec<Slot>,
+    pub finality_status: Vec<Slot>,
+    pub finality_parents: Vec<Slot>,
+    pub s2n_waiting: Vec<(BlockId, BlockId)>,
+}
+
+thread_local! {
+    static FINALIZATION_LOG: RefCell<Vec<VerifFinalization>> = const { RefCell::new(Vec::new()) };
+}
+
+/// Records a finalization event processed by a pool on this thread.
+pub(super) fn record_finalization(event: &FinalizationEvent) {
+    if event.finalized.is_none()
+        && event.implicitly_finalized.is_empty()
+        && event.implicitly_skipped.is_empty()
+    {
+        return;
+    }
+    FINALIZATION_LOG.with(|log| {
+        log.borrow_mut().push(VerifFinalization {
+            finalized: event.finalized.clone(),
+            implicitly_finalized: event.implicitly_finalized.clone(),
+            implicitly_skipped: event.implicitly_skipped.clone(),
+        });
+    });
+}
+
+/// Drains the finalization events recorded on this thread since the last call.
+pub fn verif_take_finalization_log() -> Vec<VerifFinalization> {
+    FINALIZATION_LOG.with(|log| std::mem::take(&mut *log.borrow_mut()))
+}
+
+impl PoolImpl {
+    /// Feeds the complete pool state into `h`, in a canonical order.
+    pub fn verif_digest<H: Hasher>(&self, h: &mut H) {
+        use std::hash::Hash;
+        for (slot, state) in &self.slot_states {
+            slot.hash(h);
+            state.verif_digest(h);
+        }
+        self.parent_ready_tracker.verif_digest(h);
+        self.finality_tracker.verif_digest(h);
+        for (parent, child) in &self.s2n_waiting_parent_cert {
+            (parent, child).hash(h);
+        }
+    }
+
+    /// First slot the pool has not pruned.
+    pub fn verif_first_unpruned_slot(&self) -> Slot {
+        self.first_unpruned_slot()
+    }
+
+    /// Which slots each component retains state for.
+    pub fn verif_retained(&self) -> VerifRetained {
+        let (finality_status, finality_parents) = self.finality_tracker.verif_retained();
+        VerifRetained {
+            slot_states: self.slot_states.keys().copied().collect(),
+            parent_ready: self.parent_ready_tracker.verif_retained(),
+            finality_status,
+            finality_parents,
+            s2n_waiting: self
+                .s2n_waiting_parent_cert
+                .iter()
+                .map(|(p, c)| (p.clone(), c.clone()))
+                .collect(),
+        }
+    }
+
+    /// All certificates the pool currently holds, in slot order.
+    pub fn verif_certs(&self) -> Vec<super::Cert> {
+        self.get_certs(..)
+    }
+}
